@@ -1,4 +1,4 @@
-CONSTANTS Families = {"one", "rsv"}  Bug = "LastPageFromSize"  Emit = FALSE
+CONSTANTS Families = {"mini"}  Bug = "LastPageFromSize"  Emit = FALSE
   TwoFlags = {}
   TwoSizes = {}
   ThreeSizes = {}
